@@ -110,6 +110,13 @@ def h_alias(t0: int, t1: int, t2: int, t3: int, t4: int) -> bool:
     old_c, old_l = config._compilers, config.log
     config._compilers = table
     config.log = rec
+    import signal
+
+    def _hang(signum, frame):
+        raise TimeoutError("ArgumentParser.__init__ did not return within 5 s: alias resolution hangs")
+
+    old_h = signal.signal(signal.SIGALRM, _hang)
+    old_left = signal.alarm(5)
     try:
         ap = config.ArgumentParser("/usr/bin/" + NAMES[0])
     except Exception as e:
@@ -117,6 +124,10 @@ def h_alias(t0: int, t1: int, t2: int, t3: int, t4: int) -> bool:
             LAST.update(targets=targets, exception=repr(e))
         return False
     finally:
+        signal.alarm(0)
+        signal.signal(signal.SIGALRM, old_h)
+        if old_left:
+            signal.alarm(max(1, old_left))
         config._compilers = old_c
         config.log = old_l
     exp = _ref_alias(targets, NAMES[0])
